@@ -92,6 +92,15 @@ pub trait Part: 'static {
     fn show(case: &Self::Case) -> serde_json::Value {
         serde_json::to_value(case).unwrap_or(serde_json::Value::Null)
     }
+    /// a finite list of cases to run completely (used by enumerated isolated runs)
+    fn enumeration(_tier: Tier) -> Vec<Self::Case> {
+        vec![]
+    }
+    /// smaller variants of a case, tried by the parent-side shrinker of isolated runs
+    /// (needed only for failures that kill the worker process)
+    fn shrink_candidates(_case: &Self::Case) -> Vec<Self::Case> {
+        vec![]
+    }
 }
 
 // ---------------------------------------------------------------------------
@@ -194,6 +203,15 @@ pub struct Finding {
     /// build variant the witness belongs to (None = default build)
     #[serde(default)]
     pub variant: Option<String>,
+    /// false: the signature is too generic to be tolerated during a search (e.g. a native
+    /// stack overflow); the finding is excluded by construction in the generator instead and
+    /// only its own witness is matched against it
+    #[serde(default = "default_true")]
+    pub tolerate: bool,
+}
+
+fn default_true() -> bool {
+    true
 }
 
 pub fn verif_root() -> PathBuf {
@@ -351,7 +369,7 @@ impl Ctx {
         OpenSet(
             self.findings
                 .iter()
-                .filter(|f| f.status == "open")
+                .filter(|f| f.status == "open" && f.tolerate)
                 .map(|f| f.signature.clone())
                 .collect(),
         )
@@ -711,6 +729,10 @@ impl Ctx {
                 ("open", Some(fail)) if OpenSet(vec![f.signature.clone()]).contains(&fail.signature) => {
                     *self.known_hits.entry(f.signature.clone()).or_default() += 1;
                 }
+                ("open", Some(fail)) if self.open_signatures().contains(&fail.signature) => {
+                    let p = self.open_signatures().find(&fail.signature).unwrap().to_string();
+                    *self.known_hits.entry(p).or_default() += 1;
+                }
                 ("open", Some(fail)) => {
                     // the witness fails differently now: that is a new violation
                     self.violations.push(Violation {
@@ -727,12 +749,17 @@ impl Ctx {
                     );
                 }
                 (_, Some(fail)) => {
-                    self.violations.push(Violation {
-                        variant: variant_name(),
-                        part: P::NAME.to_string(),
-                        case: w,
-                        failure: fail,
-                    });
+                    // the witness of a fixed finding may still run into another, open one
+                    if let Some(p) = self.open_signatures().find(&fail.signature).map(|s| s.to_string()) {
+                        *self.known_hits.entry(p).or_default() += 1;
+                    } else {
+                        self.violations.push(Violation {
+                            variant: variant_name(),
+                            part: P::NAME.to_string(),
+                            case: w,
+                            failure: fail,
+                        });
+                    }
                 }
                 (_, None) => {}
             }
@@ -742,6 +769,35 @@ impl Ctx {
     pub fn add_violation(&mut self, part: &str, case: serde_json::Value, failure: Failure) {
         if let Some(p) = self.open_signatures().find(&failure.signature) {
             *self.known_hits.entry(p.to_string()).or_default() += 1;
+            return;
+        }
+        self.violations.push(Violation {
+            variant: variant_name(),
+            part: part.to_string(),
+            case,
+            failure,
+        });
+    }
+
+    pub fn findings_for_part(&self, part: &str) -> Vec<Finding> {
+        self.findings
+            .iter()
+            .filter(|f| f.part.as_deref() == Some(part))
+            .cloned()
+            .collect()
+    }
+
+    pub fn note_known(&mut self, pattern: &str, n: u64) {
+        *self.known_hits.entry(pattern.to_string()).or_default() += n;
+    }
+
+    /// Records a violation found by an isolated run. `part` may carry a `label:` prefix.
+    pub fn push_violation(&mut self, part: &str, case: serde_json::Value, failure: Failure) {
+        if self
+            .violations
+            .iter()
+            .any(|v| v.part == part && v.failure.signature == failure.signature)
+        {
             return;
         }
         self.violations.push(Violation {
@@ -1080,6 +1136,14 @@ macro_rules! declare_parts {
         #[allow(dead_code)]
         fn preamble(ctx: &mut $crate::runner::Ctx) {
             $(ctx.run_finding_witnesses::<$p>(); ctx.run_regressions::<$p>();)+
+        }
+        /// worker / single-case entry points of isolated (child process) runs
+        pub fn worker(part: &str, args: &[String]) -> bool {
+            $(if part == <$p as $crate::runner::Part>::NAME {
+                $crate::isolate::worker_main::<$p>(args);
+                return true;
+            })+
+            false
         }
     };
 }
